@@ -5,9 +5,10 @@
 (* Primary data of a repository: a history of at most N commits (commit i  *)
 (* may only have parents < i; its tree and blob are private to it, so      *)
 (* "group i" stands for the three objects c_i, t_i, b_i), where each group *)
-(* is stored (loose and/or in which packs; a pack IS the set of groups it  *)
-(* holds, as its name is the hash of its object names), and the refs with  *)
-(* their storage (loose file / packed-refs entry).                         *)
+(* is stored (loose or in which pack; a pack IS the set of groups it holds *)
+(* together with the scheme its file name follows: dulwich names a pack    *)
+(* after the hash of its object names, git after the hash of its bytes),   *)
+(* and the refs with their storage (loose file / packed-refs entry).       *)
 (*                                                                         *)
 (* Acceleration data, one record each, with the snapshot of exactly the    *)
 (* primary data it encodes ("builtFrom"):                                  *)
@@ -61,7 +62,7 @@ CONSTANTS N,                    \* commits in the universe
 VARIABLES n,        \* commits created so far: 1..n
           par,      \* [1..N -> SUBSET 1..N]   parents
           loose,    \* SUBSET 1..N             groups stored as loose objects
-          packs,    \* SUBSET SUBSET 1..N      packs
+          packs,    \* set of <<SUBSET 1..N, "d" | "g">>   packs
           tref,     \* [Refs -> 0..N]          THE value of each ref (0 = absent): primary truth
           lref,     \* [Refs -> 0..N]          loose ref file
           pref,     \* [Refs -> 0..N]          packed-refs entry
@@ -122,7 +123,8 @@ T_Par(i)      == IF Present(i) THEN par[i] ELSE MISSING
 T_Anc(ta, H)  == IF H \subseteq PresentS THEN AncOf(ta, H) ELSE MISSING
 T_Mb(ta, i, j) == IF {i, j} \subseteq PresentS THEN Lca(TParFn, ta, i, j) ELSE MISSING
 T_RC(ta, H, X) == IF H \cup X \subseteq PresentS THEN AncOf(ta, H) \ AncOf(ta, X) ELSE MISSING
-T_RO(ta, H, X) == T_RC(ta, H, X)             \* groups: every object of every such commit
+\* groups (every object of every such commit); commits that are not there are skipped, not an error
+T_RO(ta, H, X) == AncOf(ta, H \cap PresentS) \ AncOf(ta, X \cap PresentS)
 T_Miss(ta, Hv, W) == IF W \subseteq PresentS THEN AncOf(ta, W) \ AncOf(ta, Hv \cap PresentS) ELSE MISSING
 T_Ref(r)      == tref[r]
 
@@ -163,7 +165,7 @@ Trav_RC(v, H, X) ==            \* _collect_ancestors(heads, common = exclude)
     IF ProvidersAgree THEN (IF 0 \in AncOf(v.anc, H \cup X) THEN MISSING ELSE AncOf(v.anc, H) \ AncOf(v.anc, X))
     ELSE Norm(Walk(v, H, X, N) \ X)
 Trav_RO(v, H, X) ==            \* the commits given and their trees, minus those of the excluded commits
-    IF ProvidersAgree THEN Trav_RC(v, H, X)
+    IF ProvidersAgree THEN Norm(AncOf(v.anc, H \cap PresentS)) \ Norm(AncOf(v.anc, X \cap PresentS))
     ELSE (H \ X) \cap PresentS
 Bmp_R(b, H, X) ==
     Decode(b, H) \ (IF X # {} /\ X \subseteq b.sel THEN Decode(b, X) ELSE {})
